@@ -408,6 +408,39 @@ impl Property for RefProp {
                 }
             }
         }
+        // the twins agree on every execution of the parsed program, not only on the first (what the
+        // folding pass builds ahead of time belongs to no particular execution)
+        if matches!(p_out, Outcome::Value(_)) {
+            let hidden = &materialise(case["hidden"].as_str().unwrap_or(""), case);
+            let again = |text: &str| -> Option<String> {
+                run::default_budget();
+                let interp = crate::exec::safe_interpreter();
+                let Ok(Ok(code)) = run::parse_guarded(&interp, text) else { return None };
+                let _ = run::exec_guarded(&code);
+                run::default_budget();
+                let _ = run::exec_guarded(&code);
+                run::default_budget();
+                match run::exec_guarded(&code) {
+                    Outcome::Value(v) => Some(format!("value {}", crate::canon::canon(&v).show())),
+                    Outcome::Aborted(_) => None,
+                    o => Some(o.short()),
+                }
+            };
+            stats.evals(2);
+            if let (Some(p3), Some(h3)) = (again(plain), again(hidden))
+                && p3 != h3
+            {
+                return fail(
+                    "C04:twin-differs:third-execution",
+                    format!("third execution of one parsed program
+  literal: `{plain}`
+  gives {p3}
+  hidden: `{hidden}`
+  gives {h3}
+  (the first executions agreed on {p_shown})"),
+                );
+            }
+        }
         if nontrivial {
             stats.nontrivial(plain);
         }
@@ -543,6 +576,21 @@ fn partial_constant_cases() -> Vec<Json> {
             for k in fconsts {
                 push("float", &float_text(v), &[&float_text(k)], &format!("{{x}} {op} {{0}}"), vec![]);
                 push("float", &float_text(v), &[&float_text(k)], &format!("{{0}} {op} {{x}}"), vec![]);
+            }
+        }
+    }
+    // a comparison under `!`: negating a comparison is not the opposite comparison where NaN is involved
+    for op in ["<", "<=", ">", ">=", "==", "!="] {
+        for v in [f64::NAN, 1.0, -0.0, f64::INFINITY] {
+            for k in [1.0, 0.0, f64::NAN] {
+                push("float", &float_text(v), &[&float_text(k)], &format!("!({{x}} {op} {{0}})"), vec![]);
+                push("float", &float_text(v), &[&float_text(k)], &format!("!({{0}} {op} {{x}})"), vec![]);
+                push("float", &float_text(v), &[&float_text(k)], &format!("!({{x}} {op} {{x}}) == ({{0}} {op} {{x}})"), vec![]);
+            }
+        }
+        for v in [0i64, 1, -1, i64::MAX, i64::MIN] {
+            for k in [0i64, 1, i64::MIN] {
+                push("int", &int_text(v), &[&int_text(k)], &format!("!({{x}} {op} {{0}})"), vec![]);
             }
         }
     }
@@ -1343,6 +1391,35 @@ pub fn run(session: &Session, prop: &'static RefProp, rule: &str) -> i32 {
                 }
             }
         }
+    }
+    if prop.id == "C12" && !session.stopped() {
+        // an accepted match has an arm for its scrutinee: after a construct that bound the scrutinee's
+        // name locally at another type, a match that covers only that other type is refused, and the
+        // match that covers the name's own type takes its arm
+        let mut cases = vec![];
+        let constructs = [
+            "for x in [1, 2]~ { }",
+            "for x in [1, 2]~ { y := x + 1; }",
+            "if x: int = 5 { }",
+            "q := match 5 { x: int => x, }",
+            "k := mut 0; nxt := (k: mut int) -> int|string { if *k < 2 { return *k; } return \"end\"; }; while x: int = nxt(k) { k += 1; }",
+            "f := (x: int) -> int { return x; }; f(1)",
+            "{ x := 5; x }",
+            "g := () -> int { x := 5; return x; }; g()",
+            "(a, b) := (1, 2); for x in [a, b]~ { for x in [x]~ { } }",
+            "w := [1]~ @ (x: int) -> int { return x; } $]",
+        ];
+        for construct in constructs {
+            for (open, close) in [("x := \"s\"; ", ""), ("h := (x: string) -> int { ", " }; h(\"s\")"), ("x := *(mut any \"s\"); h := (x: string|bool) -> int { ", " }; h(\"s\")")] {
+                let inside = !close.is_empty();
+                let ret = if inside { "return " } else { "" };
+                cases.push(json!({"kind": "probe", "sig": "C12:match-coverage-after-binder", "text": format!("{open}{construct}; {ret}match x {{ v: int => 1, }}{close}"), "expected": "Rejected(MatchNotCovered)"}));
+                let full = if open.contains("string|bool") { "v: string => 7, v: bool => 8," } else { "v: string => 7," };
+                cases.push(json!({"kind": "probe", "sig": "C12:match-coverage-after-binder", "text": format!("{open}{construct}; {ret}match x {{ {full} }}{close}"), "expected": "value 7"}));
+                cases.push(json!({"kind": "probe", "sig": "C12:match-coverage-after-binder", "text": format!("{open}{construct}; {ret}match x {{ v: int => 1, v: any => 7, }}{close}"), "expected": "value 7"}));
+            }
+        }
+        session.run_enum(prop, cases);
     }
     if prop.id == "C12" && !session.stopped() {
         // selection follows the language's own `==` and the condition's own value: signed zeros and NaN among
